@@ -181,6 +181,26 @@ def run(prop, tier, seed, out):
                     out.notes.append("mismatch attributed to %s (not %s): %s" % (",".join(m["props"]), prop, m["what"]))
             if r["by_prop"].get(prop, 0) and not out.violations:
                 out.violation("%s: %d mismatches attributed to %s" % (nm, r["by_prop"][prop], prop), (r["mismatches"] or [])[:3])
+        if prop == "C06":
+            # unbounded histories: the reference-counting core with an inductive invariant, discharged by Apalache
+            base = ["--cinit=CInit"]
+            obligations = [("init", base + ["--init=Init", "--inv=IndInv", "--length=0"]),
+                           ("step", base + ["--init=IndInit", "--inv=IndInv", "--length=1"]),
+                           ("in-use-iff-listed", base + ["--init=IndInit", "--inv=InUseIffListed", "--length=0"]),
+                           ("nothing-pinned", base + ["--init=IndInit", "--inv=NothingPinned", "--length=0"])]
+            if quick:
+                obligations = obligations[:2]
+            for nm, a in obligations:
+                r = run_apalache(scr, "registry/apalache", "RegistryInd", a, nm)
+                if r != "NoError":
+                    raise Broken("Apalache obligation %s of RegistryInd not discharged: %s" % (nm, r))
+            # vacuity: without the release in RemovePipeline the inductive step must fail
+            r = run_apalache(scr, "registry/apalache", "RegistryInd", base + ["--init=IndInit", "--inv=IndInv", "--length=1"], "step-mutated",
+                             mutate=("THEN refc[n] - 1 ELSE refc[n]]\n  /\\ UNCHANGED reg", "THEN refc[n] ELSE refc[n]]\n  /\\ UNCHANGED reg"))
+            if r != "Error":
+                raise Broken("the inductive step still holds when RemovePipeline releases nothing (vacuous): " + r)
+            out.coverage["apalache_obligations_discharged"] = [nm for nm, _ in obligations]
+            out.notes.append("Apalache: IndInv (RefcMatches, ListedAreRegistered, ...) is inductive for RegistryInd: the accounting holds for histories of any length")
         if prop == "C07":
             # overwrites racing with Sends: every Send is processed by exactly one version (never both, never neither)
             hp, rp = scr.path("c07.ndjson"), scr.path("c07.json")
